@@ -22,6 +22,7 @@ import (
 	"fmt"
 	"io"
 	"strings"
+	"sync/atomic"
 
 	"golang.org/x/crypto/ssh"
 	"verif/ref/sshpkt"
@@ -40,6 +41,10 @@ type mode struct {
 	macKeySize  int
 	spec        sshpkt.CipherSpec
 	none        bool
+	// dead is set once a violation has been recorded for this mode: the remaining cases of
+	// the mode are skipped (a reader that is already broken can be arbitrarily slow, e.g.
+	// allocate 4 GiB per case). On a tree without violations nothing is ever skipped.
+	dead *atomic.Bool
 }
 
 func (m mode) String() string {
@@ -84,15 +89,15 @@ func modes(c *vf.Ctx) []mode {
 			continue
 		}
 		if ci.AEAD {
-			out = append(out, mode{cipher: ci.Name, keySize: ci.KeySize, ivSize: ci.IVSize, spec: spec})
+			out = append(out, mode{cipher: ci.Name, keySize: ci.KeySize, ivSize: ci.IVSize, spec: spec, dead: new(atomic.Bool)})
 			continue
 		}
 		for _, mi := range macs {
-			out = append(out, mode{cipher: ci.Name, mac: mi.Name, keySize: ci.KeySize, ivSize: ci.IVSize, macKeySize: mi.KeySize, spec: spec})
+			out = append(out, mode{cipher: ci.Name, mac: mi.Name, keySize: ci.KeySize, ivSize: ci.IVSize, macKeySize: mi.KeySize, spec: spec, dead: new(atomic.Bool)})
 		}
 	}
 	ns, _ := sshpkt.LookupCipher("none")
-	out = append(out, mode{cipher: "none", spec: ns, none: true})
+	out = append(out, mode{cipher: "none", spec: ns, none: true, dead: new(atomic.Bool)})
 	return out
 }
 
@@ -214,7 +219,18 @@ func (s *stream) intactPackets(modified []byte) int {
 
 // judge reads the modified stream and applies the invariant.
 func (s *stream) judge(c *vf.Ctx, kind string, modified []byte, detail func() map[string]any) {
+	if s.m.dead.Load() {
+		c.Capped("mode " + s.m.String() + ": cases after its first violation skipped")
+		return
+	}
+	before := c.Violations()
+	defer func() {
+		if c.Violations() != before {
+			s.m.dead.Store(true)
+		}
+	}()
 	c.Eval(1)
+	c.Add("cases: "+kind, 1)
 	fam := s.m.family()
 	intact := s.intactPackets(modified)
 	res := readAll(s.m, s.k, s.seq0, bytes.NewReader(modified), len(s.packets)+3)
@@ -261,6 +277,12 @@ func (s *stream) judge(c *vf.Ctx, kind string, modified []byte, detail func() ma
 			c.Outcome("intact packet returned")
 		}
 	}
+}
+
+// padBoundary selects the padding_length values adjacent to a comparison in any reader:
+// 0..5 (minimum padding 4), l-3..l+2 (padding versus packet length), 8, 64, 128, 254, 255.
+func padBoundary(pad, l int) bool {
+	return pad <= 5 || pad == 8 || pad == 64 || pad == 128 || pad >= 254 || (pad >= l-3 && pad <= l+2)
 }
 
 func cat(parts ...[]byte) []byte {
@@ -461,13 +483,29 @@ func crafter(c *vf.Ctx, m mode, k keys) func() *sshpkt.Codec {
 	return nil
 }
 
-func totality(c *vf.Ctx, m mode) {
+// totality runs in two phases. Phase 0 (guard) is cheap and decides whether the reader
+// enforces maxPacket at all: authentic complete packets just above maxPacket and headers
+// declaring up to 2^24 bytes on an endless stream. Only if it passes are the remaining
+// cases (which include length fields up to 2^32-1, i.e. multi-gigabyte allocations in a
+// reader without the bound) run for this mode. It reports whether no violation was seen.
+func totality(c *vf.Ctx, m mode, phase int) bool {
+	clean := true
 	fam := m.family()
 	k := m.keys(c, 1)
 	legalMax := 4 + maxPacket + 64 // no legal packet is longer than this on the wire
 
+	viol := func(class string, detail any) {
+		clean = false
+		m.dead.Store(true)
+		c.Violation(class, detail)
+	}
 	check := func(kind string, src *budgetReader, declared uint32, body []byte, authentic bool, detail map[string]any) {
+		if m.dead.Load() {
+			c.Capped("mode " + m.String() + ": cases after its first violation skipped")
+			return
+		}
 		c.Eval(1)
+		c.Add("cases: "+kind, 1)
 		res := readAll(m, k, 9, src, 1)
 		r := res[0]
 		detail["mode"], detail["case"], detail["declared_length"] = m.String(), kind, declared
@@ -476,13 +514,13 @@ func totality(c *vf.Ctx, m mode) {
 		}
 		if r.panic != "" {
 			detail["panic"] = r.panic
-			c.Violation("reader panics ("+kind+"): "+fam, detail)
+			viol("reader panics ("+kind+"): "+fam, detail)
 			c.Outcome("panic")
 			return
 		}
 		if src.consumed > legalMax || errors.Is(r.err, errBudget) {
 			detail["consumed"] = src.consumed
-			c.Violation("reader keeps consuming beyond the largest legal packet ("+kind+"): "+fam, detail)
+			viol("reader keeps consuming beyond the largest legal packet ("+kind+"): "+fam, detail)
 			return
 		}
 		if r.err != nil {
@@ -491,11 +529,11 @@ func totality(c *vf.Ctx, m mode) {
 		}
 		detail["returned"] = vf.Hex8(r.payload)
 		if declared > maxPacket {
-			c.Violation("declared length above maxPacket accepted ("+kind+"): "+fam, detail)
+			viol("declared length above maxPacket accepted ("+kind+"): "+fam, detail)
 			return
 		}
 		if !authentic && !m.none {
-			c.Violation("reader returns a payload from a stream no writer produced ("+kind+"): "+fam, detail)
+			viol("reader returns a payload from a stream no writer produced ("+kind+"): "+fam, detail)
 			return
 		}
 		// a returned payload must be what the framing says
@@ -506,44 +544,46 @@ func totality(c *vf.Ctx, m mode) {
 				full = append(full, make([]byte, 4+int(declared)-len(full))...)
 			}
 			if len(full) < 4+int(declared) {
-				c.Violation("payload returned from an incomplete packet ("+kind+"): "+fam, detail)
+				viol("payload returned from an incomplete packet ("+kind+"): "+fam, detail)
 				return
 			}
 			body = full[4 : 4+int(declared)]
 		}
 		pl, _, err := sshpkt.Unframe(body)
 		if err != nil || !bytes.Equal(pl, r.payload) {
-			c.Violation("returned payload is not padding_length-delimited part of the packet ("+kind+"): "+fam, detail)
+			viol("returned payload is not padding_length-delimited part of the packet ("+kind+"): "+fam, detail)
 			return
 		}
 		c.Outcome("payload")
 	}
 
-	// (a) short streams: all 1-byte streams, and all streams of 0..4 bytes over an alphabet
-	alpha := []byte{0x00, 0x01, 0x7f, 0x80, 0xff}
-	var shorts [][]byte
-	for v := 0; v < 256; v++ {
-		shorts = append(shorts, []byte{byte(v)})
-	}
-	var gen func(cur []byte)
-	gen = func(cur []byte) {
-		shorts = append(shorts, append([]byte{}, cur...))
-		if len(cur) == 4 {
-			return
+	if phase == 1 {
+		// (a) short streams: all 1-byte streams, and all streams of 0..4 bytes over an alphabet
+		alpha := []byte{0x00, 0x01, 0x7f, 0x80, 0xff}
+		var shorts [][]byte
+		for v := 0; v < 256; v++ {
+			shorts = append(shorts, []byte{byte(v)})
 		}
-		for _, a := range alpha {
-			gen(append(cur, a))
+		var gen func(cur []byte)
+		gen = func(cur []byte) {
+			shorts = append(shorts, append([]byte{}, cur...))
+			if len(cur) == 4 {
+				return
+			}
+			for _, a := range alpha {
+				gen(append(cur, a))
+			}
 		}
-	}
-	gen(nil)
-	for _, sbytes := range shorts {
-		check("short stream", &budgetReader{data: sbytes}, 0, nil, false, map[string]any{"stream": fmt.Sprintf("%x", sbytes)})
-	}
-	c.Nontrivial(fmt.Sprintf("%s/short-streams", m))
+		gen(nil)
+		for _, sbytes := range shorts {
+			check("short stream", &budgetReader{data: sbytes}, 0, nil, false, map[string]any{"stream": fmt.Sprintf("%x", sbytes)})
+		}
+		c.Nontrivial(fmt.Sprintf("%s/short-streams", m))
 
+	}
 	mk := crafter(c, m, k)
 	if mk == nil {
-		return
+		return false
 	}
 	probe := mk()
 	sealable := func(l int) bool { // CBC can only carry whole blocks
@@ -558,10 +598,12 @@ func totality(c *vf.Ctx, m mode) {
 
 	// (b) authentic packets, every padding_length x small packet_length
 	var smalls []int
-	for l := 0; l <= 44; l++ {
+	for l := 0; phase == 1 && l <= 44; l++ {
 		smalls = append(smalls, l)
 	}
-	smalls = append(smalls, 60, 124, 252, 254, 255, 256, 257, 258, 260, 268, 300)
+	if phase == 1 {
+		smalls = append(smalls, 60, 124, 252, 254, 255, 256, 257, 258, 260, 268, 300)
+	}
 	for _, l := range smalls {
 		if !sealable(l) {
 			continue
@@ -570,14 +612,17 @@ func totality(c *vf.Ctx, m mode) {
 			if l == 0 && pad > 0 {
 				break
 			}
+			if !c.Thorough && l > 33 && !padBoundary(pad, l) {
+				continue // quick: for longer packets only the padding_length values next to a bound
+			}
 			body := c.Bytes("craft-body", l, l)
 			if l > 0 {
 				body[0] = byte(pad)
 			}
 			wire, err := mk().Seal(9, uint32(l), body)
 			if err != nil {
-				c.Violation("harness: model cannot seal", map[string]any{"mode": m.String(), "len": l, "err": err.Error()})
-				return
+				viol("harness: model cannot seal", map[string]any{"mode": m.String(), "len": l, "err": err.Error()})
+				return false
 			}
 			check("authentic packet with arbitrary padding_length", &budgetReader{data: wire}, uint32(l), body, true, map[string]any{"packet_length": l, "padding_length": pad})
 			// the same packet followed by an endless stream: nothing beyond it may be needed
@@ -590,14 +635,17 @@ func totality(c *vf.Ctx, m mode) {
 
 	// (c) declared length around and above maxPacket, authentic and complete
 	for _, l := range []int{maxPacket + 1, maxPacket + 2, maxPacket + 4, maxPacket + 8, maxPacket + 12, maxPacket + 16, maxPacket + 28, maxPacket + 32, 2 * maxPacket} {
+		if phase != 0 {
+			break
+		}
 		if !sealable(l) {
 			continue
 		}
 		body := sshpkt.Frame(c.Bytes("big-payload", l, l-1-8), make([]byte, 8))
 		wire, err := mk().Seal(9, uint32(l), body)
 		if err != nil {
-			c.Violation("harness: model cannot seal", map[string]any{"mode": m.String(), "len": l, "err": err.Error()})
-			return
+			viol("harness: model cannot seal", map[string]any{"mode": m.String(), "len": l, "err": err.Error()})
+			return false
 		}
 		check("authentic complete packet with packet_length above maxPacket", &budgetReader{data: wire}, uint32(l), body, true, map[string]any{"packet_length": l})
 		check("authentic complete packet with packet_length above maxPacket, endless stream", &budgetReader{data: wire, endless: true, budget: legalMax + 1}, uint32(l), body, true, map[string]any{"packet_length": l})
@@ -606,9 +654,19 @@ func totality(c *vf.Ctx, m mode) {
 
 	// (d) header says L (every boundary value) x every padding_length, followed by a short
 	// body, by nothing, or by an endless stream
-	for _, l := range []uint32{0, 1, 2, 3, 4, 5, 11, 12, 15, 16, 17, 27, 28, 29, 31, 32, 33, maxPacket - 4, maxPacket - 1, maxPacket, maxPacket + 1, maxPacket + 12, maxPacket + 16,
-		1 << 20, 1<<24 - 4, 1<<31 - 1, 1 << 31, 1<<31 + 12, 1<<32 - 68, 1<<32 - 64, 1<<32 - 33, 1<<32 - 32, 1<<32 - 20, 1<<32 - 16, 1<<32 - 12, 1<<32 - 4, 1<<32 - 2, 1<<32 - 1} {
+	headerLens := []uint32{0, 1, 2, 3, 4, 5, 11, 12, 15, 16, 17, 27, 28, 29, 31, 32, 33, maxPacket - 4, maxPacket - 1, maxPacket, maxPacket + 1, maxPacket + 12, maxPacket + 16,
+		1 << 20, 1<<24 - 4, 1<<31 - 1, 1 << 31, 1<<31 + 12, 1<<32 - 68, 1<<32 - 64, 1<<32 - 33, 1<<32 - 32, 1<<32 - 20, 1<<32 - 16, 1<<32 - 12, 1<<32 - 4, 1<<32 - 2, 1<<32 - 1}
+	if phase == 0 {
+		headerLens = []uint32{maxPacket + 1, maxPacket + 4, maxPacket + 12, maxPacket + 16, 2 * maxPacket, 1 << 20, 1<<24 - 4}
+	}
+	for _, l := range headerLens {
 		for pad := 0; pad < 256; pad++ {
+			if phase == 0 && pad != 8 {
+				continue
+			}
+			if phase == 1 && !c.Thorough && l > 33 && !padBoundary(pad, 32) {
+				continue
+			}
 			short := make([]byte, 28) // 4+28 = whole blocks for every cipher
 			if probe.LengthInClearOrSeparate() {
 				short = make([]byte, 32)
@@ -616,40 +674,49 @@ func totality(c *vf.Ctx, m mode) {
 			short[0] = byte(pad)
 			wire, err := mk().Seal(9, l, short)
 			if err != nil {
-				c.Violation("harness: model cannot seal", map[string]any{"mode": m.String(), "len": l, "err": err.Error()})
-				return
+				viol("harness: model cannot seal", map[string]any{"mode": m.String(), "len": l, "err": err.Error()})
+				return false
 			}
 			d := func() map[string]any { return map[string]any{"padding_length": pad} }
 			authentic := int(l) == len(short)
 			check("header with boundary length, short body", &budgetReader{data: wire}, l, short, authentic, d())
-			if pad%64 == 0 || pad == 255 {
+			if pad%64 == 0 || pad == 255 || phase == 0 {
 				check("header with boundary length, prefix only", &budgetReader{data: wire[:5]}, l, short, false, d())
 				check("header with boundary length, endless stream", &budgetReader{data: wire, endless: true, budget: legalMax + 1}, l, short, authentic, d())
 			}
 		}
-		c.Nontrivial(fmt.Sprintf("%s/header-length/%d", m, l))
+		c.Nontrivial(fmt.Sprintf("%s/header-length/%d/%d", m, phase, l))
 	}
-	if c.WantSample() {
+	if phase == 1 && c.WantSample() {
 		c.Sample(map[string]any{"mode": m.String(), "totality": "short streams, authentic malformed packets, oversize declared lengths"})
 	}
+	return clean
 }
 
 func run(c *vf.Ctx) {
 	c.Rule("part 1, every authenticated cipher x MAC pair: real-writer streams of 1..4 packets (payload lengths from {1,20,300}) x {every single-bit flip of the first packet (9 stream shapes) and of every packet of an equal-length stream, " +
 		"every byte complemented/zeroed, every pair of bit flips in the 5 header bytes, every truncation point, every arrangement (index sequences of length 0..n+1 over n<=4 packets: all drops, duplications, reorders), 6 injected blobs at every packet boundary}; " +
-		"part 2, every mode incl. none: all 1-byte streams + all streams of <=4 bytes over {00,01,7f,80,ff}; model-sealed AUTHENTIC packets with every padding_length 0..255 x packet_length {0..44,60,124,252..300}; authentic complete packets with packet_length maxPacket+{1,2,4,8,12,16,28,32}, 2*maxPacket; " +
-		"38 boundary length fields (0..2^32-1) x every padding_length with short body / prefix only / endless stream. non-trivial = distinct (mode, fault family, stream shape) actually executed on the real reader; " +
+		"part 2, every mode incl. none: all 1-byte streams + all streams of <=4 bytes over {00,01,7f,80,ff}; model-sealed AUTHENTIC packets with every padding_length 0..255 x packet_length {0..33} and boundary padding_lengths (all 256 in thorough) x packet_length {34..44,60,124,252..300}; authentic complete packets with packet_length maxPacket+{1,2,4,8,12,16,28,32}, 2*maxPacket; " +
+		"38 boundary length fields (0..2^32-1) x every padding_length (boundary values for lengths > 33 in quick) with short body / prefix only / endless stream. non-trivial = distinct (mode, fault family, stream shape) actually executed on the real reader; " +
 		"oracle = invariant (payload only for positions whose bytes are untouched, equal to the written payload; error otherwise; never a panic; never more bytes consumed than the largest legal packet)")
 	c.Assume("verif/ref/sshpkt (KAT-validated) is used only to build authentic test packets; a reader is discarded after its first error, as the transport does; a MAC collision on the enumerated inputs is excluded")
 
 	ms := modes(c)
 	c.Set("modes_including_none", len(ms))
+	// guard phase: is maxPacket enforced at all? (see totality)
+	safe := make([]bool, len(ms))
+	c.ParallelFor(len(ms), func(i int) { safe[i] = totality(c, ms[i], 0) })
 	type job struct {
 		m    mode
 		part int
 	}
 	var jobs []job
-	for _, m := range ms {
+	for i, m := range ms {
+		if !safe[i] {
+			// already a violation; the remaining cases would make this reader allocate gigabytes
+			c.Capped("mode " + m.String() + " failed the maxPacket guard phase; remaining cases skipped for it")
+			continue
+		}
 		if !m.none {
 			jobs = append(jobs, job{m, 1})
 		}
@@ -659,7 +726,7 @@ func run(c *vf.Ctx) {
 		if jobs[i].part == 1 {
 			faults(c, jobs[i].m)
 		} else {
-			totality(c, jobs[i].m)
+			totality(c, jobs[i].m, 1)
 		}
 	})
 }
